@@ -77,6 +77,11 @@ namespace ip {
 		m_queue_size_limit = -1;
 		cancel(ec);
 		socket::close(ec);
+
+		// the connections that were still waiting to be accepted go away with
+		// the acceptor. They must not be handed out by a later accept, after the
+		// acceptor has been re-opened and bound to (possibly) another endpoint
+		check_accept_queue();
 	}
 
 	void tcp::acceptor::close()
